@@ -74,7 +74,7 @@ func c06domain(thorough bool) []refimpl.Rec {
 		}
 		for _, x := range []cs{{nil, ""}, {nil, "ACGT"}, {[]uint32{cig('M', 4)}, "ACGT"}, {[]uint32{cig('M', 4)}, ""}, {[]uint32{cig('S', 2), cig('M', 2)}, "ACGT"},
 			{[]uint32{cig('M', 1), cig('I', 1), cig('M', 1), cig('D', 1), cig('M', 1)}, "ACGT"[:4]}, {[]uint32{cig('H', 3), cig('M', 2)}, "AC"},
-			{[]uint32{cig('M', 1<<28 - 1), cig('M', 1)}, ""}, {[]uint32{cig('M', 16)}, "=ACMGRSVTWYHKDBN"}, {[]uint32{cig('M', 3)}, "acg"}} {
+			{[]uint32{cig('M', 1<<28-1), cig('M', 1)}, ""}, {[]uint32{cig('M', 16)}, "=ACMGRSVTWYHKDBN"}, {[]uint32{cig('M', 3)}, "acg"}} {
 			for _, q := range []bool{false, true} {
 				r := ctx
 				r.Cigar, r.Seq = x.cg, x.seq
